@@ -45,6 +45,9 @@ pub struct Scn {
     pub max_objects_error: usize,
     pub object_timeout_ms: u64,
     pub session_timeout_ms: Option<u64>,
+    /// object_timeout = None: stalled objects only go away with their session (needs a session timeout)
+    #[serde(default)]
+    pub no_object_timeout: bool,
     pub scheme: Scheme,
     pub e: u16,
     pub b: u32,
@@ -80,6 +83,7 @@ pub fn gen(idx: u64, rng: &mut Rng, tier: Tier) -> Scn {
         max_objects_error: if kind == Kind::InterruptedObjects { *rng.pick(&[1usize, 2, 4, 8]) } else { *rng.pick(&[0usize, 1, 2, 8]) },
         object_timeout_ms: *rng.pick(&[5u64, 100, 10_000]),
         session_timeout_ms: if rng.chance(0.7) { Some(*rng.pick(&[10u64, 500, 30_000])) } else { None },
+        no_object_timeout: rng.chance(0.15),
         scheme,
         e: *rng.pick(&[256u16, 512, 1024]),
         b: *rng.pick(&[2u32, 4, 8]),
@@ -147,7 +151,7 @@ pub fn run(scn: &Scn, ctx: &Ctx, scratch: &Path) {
     let recv = RecvSpec {
         max_objects_error: scn.max_objects_error,
         session_timeout_ms: scn.session_timeout_ms,
-        object_timeout_ms: Some(scn.object_timeout_ms),
+        object_timeout_ms: if scn.no_object_timeout && scn.session_timeout_ms.is_some() && scn.kind != Kind::StalledWithFdtUpdates { None } else { Some(scn.object_timeout_ms) },
         cache_size: Some(scn.cache),
         receive_once: true,
         expiry_check: true,
@@ -448,8 +452,7 @@ pub fn run(scn: &Scn, ctx: &Ctx, scratch: &Path) {
     // after the timeouts a cleanup releases everything
     let wait = scn.object_timeout_ms.max(scn.session_timeout_ms.unwrap_or(0)) * 1000 + 1_000_000;
     t += wait;
-    rr.cleanup(t);
-    t += 1000;
+    // ONE cleanup after the timeouts have elapsed releases everything
     rr.cleanup(t);
     if rr.nb_objects() != 0 {
         violate(
@@ -476,7 +479,7 @@ pub fn run(scn: &Scn, ctx: &Ctx, scratch: &Path) {
                 _ => "stalled-object",
             },
             format!(
-                "{:?}: {} bytes are still held by the receiver after object timeout {} ms / session timeout {:?} elapsed and cleanup ran twice (allowance {}); peak growth during traffic {}",
+                "{:?}: {} bytes are still held by the receiver after object timeout {} ms / session timeout {:?} elapsed and cleanup ran (allowance {}); peak growth during traffic {}",
                 scn.kind, after, scn.object_timeout_ms, scn.session_timeout_ms, allowance, worst_growth
             ),
         );
